@@ -224,6 +224,21 @@ where
             }
         }
     }
+    // powers of two and multiples of 4096 (plausible internal batch / chunk sizes), with their neighbours
+    for k in 1..=17u32 {
+        let p = 1usize << k;
+        for v in [p - 1, p, p + 1] {
+            if v <= big_n_limit.max(16385) && v > 0 {
+                ns.push(v);
+            }
+        }
+    }
+    for m in [3usize, 5, 6] {
+        let v = m * 4096;
+        if v <= big_n_limit.max(16385) {
+            ns.extend_from_slice(&[v - 1, v, v + 1]);
+        }
+    }
     ns.sort();
     ns.dedup();
     let patterns = 3u64;
